@@ -22,3 +22,41 @@ def _(roi, width, height):
     ensures("col_end", result[1] + result[3] == min(roi["col"]["last"] + roi["margins"][2] + 1, width))
     ensures("row_end", result[2] + result[4] == min(roi["row"]["last"] + roi["margins"][3] + 1, height))
     ensures("non_empty", result[3] >= 1 and result[4] >= 1)
+
+
+# ------------------------------------------------------------------------------------------------ find_valid_neighbors
+@spec
+def walk(disp, valid, r, c, dr, dc) -> "float":
+    # disparity of the first pixel without an invalid flag met from (c, r) along (dc, dr); NaN when the image is left first
+    return np.nan if (c < 0 or c >= disp.shape[0] or r < 0 or r >= disp.shape[1]) else (
+        disp[c, r] if (valid[c, r] & 963) == 0 else walk(disp, valid, r + dr, c + dc, dr, dc))
+
+
+@contract("pandora.img_tools.find_valid_neighbors", props=["C14"])
+def _(dirs, disp, valid, row, col):
+    types(dirs="i64[:,:]", disp="f32[:,:]", valid="u16[:,:]", row="int", col="int", result="f32[:]")
+    # the 8 scan directions used by both sgm kernels
+    cases(dirs=[[[0, 1], [-1, 1], [-1, 0], [-1, -1], [0, -1], [1, -1], [1, 0], [1, 1]]])
+    requires("shapes", valid.shape[0] == disp.shape[0], valid.shape[1] == disp.shape[1])
+    requires("inside", 0 <= col, col < disp.shape[0], 0 <= row, row < disp.shape[1])
+    assigns()
+    raises_never()
+    unroll(1)
+    ensures("shape", result.shape[0] == 8)
+    ensures("first_valid", all(eq(result[d], walk(disp, valid, row + dirs[d][0], col + dirs[d][1], dirs[d][0], dirs[d][1]))
+                               for d in [0, 1, 2, 3, 4, 5, 6, 7]))
+    invariant(2, 0 <= i, tmp_row == row + i * dirs[direction][0], tmp_col == col + i * dirs[direction][1],
+              i == 0 or (0 <= tmp_col and tmp_col < ncol and 0 <= tmp_row and tmp_row < nrow),
+              eq(walk(disp, valid, row + dirs[direction][0], col + dirs[direction][1], dirs[direction][0], dirs[direction][1]),
+                 walk(disp, valid, tmp_row + dirs[direction][0], tmp_col + dirs[direction][1], dirs[direction][0], dirs[direction][1])))
+    after(2, eq(valid_neighbors[direction],
+                walk(disp, valid, row + dirs[direction][0], col + dirs[direction][1], dirs[direction][0], dirs[direction][1])))
+
+
+@sampler("pandora.img_tools.find_valid_neighbors")
+def _(rng):
+    h, w = int(rng.integers(1, 5)), int(rng.integers(1, 5))
+    return {"dirs": np.array([[0, 1], [-1, 1], [-1, 0], [-1, -1], [0, -1], [1, -1], [1, 0], [1, 1]]),
+            "disp": rng.integers(-2, 3, size=(h, w)).astype(np.float32),
+            "valid": np.array([0, 0, 4, 1, 64, 256, 512, 8], dtype=np.uint16)[rng.integers(0, 8, size=(h, w))],
+            "row": int(rng.integers(0, w)), "col": int(rng.integers(0, h))}
